@@ -1,7 +1,7 @@
 (* C01 at the level of the whole request path: every body of every response comes from below the served directory,
    from an owner's symlink, from a built-in asset or is a message; a target with a ".." segment gets an error status. *)
 From Coq Require Import Arith.
-From Rws Require Import Str Utf8 Num Fs UrlParse RangeSpec Request GenMime Mime StaticRes GenConsts Forms Server StrLemmas C01Proof.
+From Rws Require Import Str Utf8 Num Unicase Fs UrlParse RangeSpec Request GenMime Mime StaticRes GenConsts Forms Server StrLemmas C01Proof.
 Open Scope N_scope.
 
 Lemma prov_whole_msg fs b ct : prov_ok fs (whole b ct Message). Proof. exact I. Qed.
@@ -119,7 +119,7 @@ Proof.
     inversion EP; subst P. rewrite (path_ne _ PATH_UPLOAD Hd) by (vm_compute; reflexivity). reflexivity. }
   assert (Hue : urlenc_controller r rs0 = FNoMatch).
   { unfold urlenc_controller. destruct (get_header r Hd_CONTENT_TYPE); [|reflexivity].
-    destruct (negb (beqs (lower (hvalue h)) CT_URLENC)); [reflexivity|].
+    destruct (negb (beqs (ulower (hvalue h)) CT_URLENC)); [reflexivity|].
     rewrite (target_ne _ _ PATH_FORM_URLENC PATH_FORM_URLENC EP Hd) by (vm_compute; reflexivity). reflexivity. }
   assert (Hfg : formget_controller r rs0 = FNoMatch).
   { unfold formget_controller, uri_path. unfold path_or_panic in EP. destruct (target_url (uri r)) as [u| |]; try discriminate.
